@@ -11,14 +11,19 @@
 From Typ Require Export SyncMap.Model.
 Local Open Scope Z_scope.
 
-Record case := Case {
+Record case := MkCase {
   c_ninst : Z;
   c_progs : list (list call);
   c_steps : list (Z * label * Z);       (* thread, label, key of an iteration hook (0 otherwise) *)
   c_results : list (list res);          (* per thread, in program order *)
   c_deadlock : bool;                    (* the real run ended with every live goroutine blocked *)
-  c_final : list (list (Z * Z))         (* per instance: pairs seen by a final sequential Range *)
+  c_final : list (list (Z * Z));        (* per instance: pairs seen by a final sequential Range *)
+  c_zerosize : bool                     (* the instances are Sets (Map[T, struct{}], zero-size values): see Model.cas_ok *)
 }.
+(* the case syntax the harnesses emit: [Case ...] for Maps with ordinary values
+   (C04, C09), [CaseZ ... true] for Sets (C05) *)
+Definition Case ninst progs steps results deadlock final : case := MkCase ninst progs steps results deadlock final false.
+Definition CaseZ ninst progs steps results deadlock final zerosize : case := MkCase ninst progs steps results deadlock final zerosize.
 
 Definition opt_eqb {X} (eqb : X -> X -> bool) := @option_eqb X eqb.
 Definition pairZ_eqb (a b : Z * Z) : bool := Z.eqb a.1 b.1 && Z.eqb a.2 b.2.
@@ -68,7 +73,7 @@ Definition no_thread_enabled (c : config) : bool :=
   forallb (fun t => match step c t 0 with Some _ => false | None => true end) (seq 0 (length (c_threads c))).
 
 Definition check_small (cs : case) : bool :=
-  match replay (init_config (Z.to_nat (c_ninst cs)) (c_progs cs)) (c_steps cs) with
+  match replay (init_config_z (repeat (c_zerosize cs) (Z.to_nat (c_ninst cs))) (c_progs cs)) (c_steps cs) with
   | None => false
   | Some c =>
       all2 (fun th rs => list_eqb res_eqb (t_results th) rs) (c_threads c) (c_results cs)
@@ -141,7 +146,7 @@ Definition check_big (cs : case) : bool :=
   | [prog], [obs] =>
       if forallb seq_supported prog then
         match seq_run (repeat empty_mstate (Z.to_nat (c_ninst cs))) prog obs with
-        | Some ss => all2 (fun s o => contents_ok (Inst s None ∅) o) ss (c_final cs)
+        | Some ss => all2 (fun s o => contents_ok (Inst s None ∅ false) o) ss (c_final cs)
         | None => false
         end
       else true
